@@ -49,10 +49,28 @@ MaxField(v) ==
 \* the family of serde hints the recording target used ("default" when the event does not say)
 HintsOf(e) == IF "hints" \in DOMAIN e THEN e.hints ELSE "default"
 
+\* the longest field that is read through the reader's scratch buffer when it is not wholly buffered: strings, bytes, fixed, map keys
+RECURSIVE MaxSlice(_)
+RECURSIVE MaxSliceList(_, _)
+MaxSliceList(vs, i) == IF i > Len(vs) THEN 0 ELSE MaxN(MaxSlice(vs[i]), MaxSliceList(vs, i + 1))
+MaxSlice(v) ==
+    CASE v.t \in {"bytes", "str", "fix"} -> Len(v.v)
+      [] v.t \in {"arr", "rec"} -> MaxSliceList(v.es, 1)
+      [] v.t = "map" -> MaxN(MaxSliceList([i \in 1..Len(v.kv) |-> v.kv[i][2]], 1),
+                             MaxSliceList([i \in 1..Len(v.kv) |-> [t |-> "str", v |-> v.kv[i][1]]], 1))
+      [] v.t = "un" -> MaxSlice(v.x)
+      [] OTHER -> 0
+
+\* e.maxbuf (optional): the reader never holds more than that many bytes at once (uniform refills).  A field longer than both
+\* the buffer and the cap cannot be wholly buffered, so the cap MUST reject it (C04: "single fields larger than the configured
+\* allocation cap are rejected").
+MaxBufOf(e) == IF "maxbuf" \in DOMAIN e THEN e.maxbuf ELSE -1
+MustRejectAlloc(e, v) == e.maxalloc >= 0 /\ MaxBufOf(e) >= 0 /\ MaxSlice(v) > e.maxalloc /\ MaxSlice(v) > MaxBufOf(e)
+
 DeAllowed(e) ==
     LET G == Scope[e.si].nodes
         r == Dec(G, 1, e.bytes, 1, e.depth, e.maxseq)
-    IN  CASE r.st = "ok"   -> \/ (e.res = "ok" /\ e.value = Shown(G, r.v, HintsOf(e)) /\ e.consumed = r.pos - 1)
+    IN  CASE r.st = "ok"   -> \/ (e.res = "ok" /\ e.value = Shown(G, r.v, HintsOf(e)) /\ e.consumed = r.pos - 1 /\ ~MustRejectAlloc(e, r.v))
                               \/ (e.res = "err" /\ e.maxalloc >= 0 /\ MaxField(r.v) > e.maxalloc)
           [] r.st = "err"  -> e.res = "err"
           [] r.st = "free" -> e.res \in {"ok", "err"}
